@@ -14,29 +14,29 @@ import (
 )
 
 type Obligation struct {
-	Name     string `json:"name"`     // site name: func/kind@file:line#n
-	Clause   string `json:"clause"`   // stable identity: func :: clause id
-	Kind     string `json:"kind"`     // index, slice, div, panic, requires, ensures, invariant-entry, invariant-preserved, frame, assert ...
-	Pos      string `json:"pos"`      // file:line
-	Src      string `json:"src"`      // trimmed source text of that line (part of the obligation's identity)
-	Desc     string `json:"desc"`     // human text
-	Func     string `json:"func"`     // function under contract
+	Name     string `json:"name"`   // site name: func/kind@file:line#n
+	Clause   string `json:"clause"` // stable identity: func :: clause id
+	Kind     string `json:"kind"`   // index, slice, div, panic, requires, ensures, invariant-entry, invariant-preserved, frame, assert ...
+	Pos      string `json:"pos"`    // file:line
+	Src      string `json:"src"`    // trimmed source text of that line (part of the obligation's identity)
+	Desc     string `json:"desc"`   // human text
+	Func     string `json:"func"`   // function under contract
 	prefix   int    // number of script lines that belong to the query
 	pc       string
 	goal     string
-	Verdict  string  `json:"verdict"` // unsat(=discharged) sat unknown timeout error
-	Solver   string  `json:"solver"`
-	Ms       float64 `json:"ms"`
-	Model    string  `json:"model,omitempty"`
-	Output   string  `json:"output,omitempty"`
-	SMTFile  string  `json:"smt_file,omitempty"`
+	Verdict  string            `json:"verdict"` // unsat(=discharged) sat unknown timeout error
+	Solver   string            `json:"solver"`
+	Ms       float64           `json:"ms"`
+	Model    string            `json:"model,omitempty"`
+	Output   string            `json:"output,omitempty"`
+	SMTFile  string            `json:"smt_file,omitempty"`
 	Inputs   map[string]string `json:"model_inputs,omitempty"` // concretisation mode: values of the function's inputs in the model
 	inputs   []inputTerm
-	Vacuity  bool    `json:"vacuity,omitempty"` // expected sat
-	Cover    bool    `json:"cover,omitempty"`   // cover clause: discharged when some member of the clause is satisfiable
-	VacPre   string  `json:"vac_pre,omitempty"` // for a post-call reachability check: name of the matching pre-call check
-	Trivial  bool    `json:"trivial,omitempty"` // goal simplified to true syntactically
-	PathHint string  `json:"path_hint,omitempty"`
+	Vacuity  bool   `json:"vacuity,omitempty"` // expected sat
+	Cover    bool   `json:"cover,omitempty"`   // cover clause: discharged when some member of the clause is satisfiable
+	VacPre   string `json:"vac_pre,omitempty"` // for a post-call reachability check: name of the matching pre-call check
+	Trivial  bool   `json:"trivial,omitempty"` // goal simplified to true syntactically
+	PathHint string `json:"path_hint,omitempty"`
 }
 
 type State struct {
@@ -118,61 +118,61 @@ type abstraction struct {
 }
 
 type Gen struct {
-	W        *World
-	fn       *ssa.Function
-	spec     *FuncSpec
-	bv       bool
-	lines    []string
-	nfresh   int
-	declared map[string]bool
-	regs     map[ssa.Value]Val
-	obls     []*Obligation
-	heapSorts map[string]string
-	fnIDs    map[*ssa.Function]int
-	typeIDs  map[string]int
-	entry    *State
-	paramVals map[string]Val
-	loops    map[*ssa.BasicBlock]*loopInfo
-	escaping map[*ssa.Alloc]bool
-	discovery bool // pass 1: discover loop write sets
-	curBlock *ssa.BasicBlock
-	blockStack []*ssa.BasicBlock
-	rootFn   *ssa.Function
-	inlineDepth int
-	inlineRets *[]inlineRet
-	p1Write  map[*ssa.BasicBlock]map[string]bool
-	p1WriteAll map[*ssa.BasicBlock]bool
-	p1Ghost  map[*ssa.BasicBlock]map[string]bool
-	p1Alloc  map[*ssa.BasicBlock]bool
-	writeLog map[*ssa.BasicBlock]map[string]bool
-	writeAll map[*ssa.BasicBlock]bool
-	writeAllKeep map[*ssa.BasicBlock][]string // components every havoc-all event of the block preserves (intersection)
-	p1WriteAllKeep map[*ssa.BasicBlock][]string
-	ghostLog map[*ssa.BasicBlock]map[string]bool
-	allocLog map[*ssa.BasicBlock]bool
-	abstractions []abstraction
-	trustedUsed map[string]bool
-	oblCount map[string]int
-	frame    []frameItem // permitted writes (nil => unchecked)
-	frameOn  bool
-	err      error
-	curPos   token.Pos
-	retCount int
+	W               *World
+	fn              *ssa.Function
+	spec            *FuncSpec
+	bv              bool
+	lines           []string
+	nfresh          int
+	declared        map[string]bool
+	regs            map[ssa.Value]Val
+	obls            []*Obligation
+	heapSorts       map[string]string
+	fnIDs           map[*ssa.Function]int
+	typeIDs         map[string]int
+	entry           *State
+	paramVals       map[string]Val
+	loops           map[*ssa.BasicBlock]*loopInfo
+	escaping        map[*ssa.Alloc]bool
+	discovery       bool // pass 1: discover loop write sets
+	curBlock        *ssa.BasicBlock
+	blockStack      []*ssa.BasicBlock
+	rootFn          *ssa.Function
+	inlineDepth     int
+	inlineRets      *[]inlineRet
+	p1Write         map[*ssa.BasicBlock]map[string]bool
+	p1WriteAll      map[*ssa.BasicBlock]bool
+	p1Ghost         map[*ssa.BasicBlock]map[string]bool
+	p1Alloc         map[*ssa.BasicBlock]bool
+	writeLog        map[*ssa.BasicBlock]map[string]bool
+	writeAll        map[*ssa.BasicBlock]bool
+	writeAllKeep    map[*ssa.BasicBlock][]string // components every havoc-all event of the block preserves (intersection)
+	p1WriteAllKeep  map[*ssa.BasicBlock][]string
+	ghostLog        map[*ssa.BasicBlock]map[string]bool
+	allocLog        map[*ssa.BasicBlock]bool
+	abstractions    []abstraction
+	trustedUsed     map[string]bool
+	oblCount        map[string]int
+	frame           []frameItem // permitted writes (nil => unchecked)
+	frameOn         bool
+	err             error
+	curPos          token.Pos
+	retCount        int
 	unsupportedMsgs []string
-	localNames map[string][]*ssa.Alloc
-	calleeUse map[*CalleeSpec]int
-	assertUse map[*Clause]int
-	setAtUse  map[*SetClause]int
-	fuzzy       map[string]string // anchor -> source line matched approximately
-	anchorNotes []string
-	freeVarNames map[string]bool
-	inputCache []inputTerm
-	unroll    int // > 0: concretisation mode (bounded unrolling instead of loop cutting)
-	curIter   int
-	uincoming map[unode][]edge
-	specFacts []string
-	inQuant   int
-	incoming map[*ssa.BasicBlock][]edge
+	localNames      map[string][]*ssa.Alloc
+	calleeUse       map[*CalleeSpec]int
+	assertUse       map[*Clause]int
+	setAtUse        map[*SetClause]int
+	fuzzy           map[string]string // anchor -> source line matched approximately
+	anchorNotes     []string
+	freeVarNames    map[string]bool
+	inputCache      []inputTerm
+	unroll          int // > 0: concretisation mode (bounded unrolling instead of loop cutting)
+	curIter         int
+	uincoming       map[unode][]edge
+	specFacts       []string
+	inQuant         int
+	incoming        map[*ssa.BasicBlock][]edge
 }
 
 type frameItem struct {
@@ -1333,7 +1333,9 @@ func (g *Gen) havocLoop(li *loopInfo, base *State) *State {
 	for c := range li.cells {
 		cells = append(cells, c)
 	}
-	sort.Slice(cells, func(i, j int) bool { return cells[i].Pos() < cells[j].Pos() || (cells[i].Pos() == cells[j].Pos() && cells[i].Name() < cells[j].Name()) })
+	sort.Slice(cells, func(i, j int) bool {
+		return cells[i].Pos() < cells[j].Pos() || (cells[i].Pos() == cells[j].Pos() && cells[i].Name() < cells[j].Name())
+	})
 	for _, c := range cells {
 		if _, ok := st.cells[c]; !ok {
 			continue
